@@ -432,3 +432,39 @@ INVOKE_STUBS[('*verif.sysrand', 'Read')] = _sysrand_read
 OPAQUE_IMPLEMENTS['*verif.sysrand'] = {'io.Reader'}
 from ..core import GLOBAL_INIT
 GLOBAL_INIT['crypto/rand.Reader'] = lambda I: Iface('*verif.sysrand', Ptr('sysrand'))
+
+
+@intrinsic('verifCBCEncrypt')
+def i_cbc_encrypt(I, args, ins):
+    ctx = I.ctx
+    alg = ctx.concretize(args[0], 0, 3, 'alg')
+    key, iv, blocks = [I.slice_elems(a) for a in args[1:4]]
+    bs = 8 if alg == 3 else 16
+    if len(iv) != bs or len(blocks) % bs != 0:
+        ctx.assume(False)
+    out = _fresh_bytes(I, len(blocks), 'cbc')
+    ctx.ghost.setdefault('cbc_enc', []).append({'alg': '3des' if alg == 3 else 'aes', 'key': key, 'iv': iv, 'pt': list(blocks), 'ct': out})
+    return I.make_slice(list(iv) + out)
+
+
+# ------------------------------------------------------------------ one-shot digests (certificate fingerprints)
+import hashlib as _hashlib
+
+
+def _sum(name, n):
+    def f(I, args, ins):
+        ctx = I.ctx
+        el = I.slice_elems(args[0])
+        if all(isinstance(e, int) for e in el):
+            return tuple(_hashlib.new(name, bytes(el)).digest())
+        key = (name, tuple(str(e) for e in el))
+        cache = ctx.ghost.setdefault('digests', {})
+        if key not in cache:
+            cache[key] = tuple(ctx.fresh_int('%s[%d]' % (name, i), 'uint8') for i in range(n))
+        return cache[key]
+    return f
+
+
+STUBS['crypto/sha256.Sum256'] = _sum('sha256', 32)
+STUBS['crypto/sha512.Sum512'] = _sum('sha512', 64)
+STUBS['crypto/sha1.Sum'] = _sum('sha1', 20)
